@@ -5,6 +5,7 @@ import KM.Gen.GoWebauthn
 import KM.Props.C04Go
 import KM.Props.C06Go
 import KM.Gen.GoCookieUp
+import KM.Gen.GoVipOtp
 /-! # C05 — when `validateUserTOTP` says yes, on the TRANSLATED source (go2lean); see `KM/Props/C14Go.lean` -/
 namespace KM.Totp
 open KM.Go KM.GoTypes
@@ -490,3 +491,37 @@ theorem c05_go_cookie_upgrade_end_to_end (jext : JwtExt) (now : Int) (cookies : 
   exact ⟨c, sa, algos, sg, t, cl, hl, h1, h2, h3, h4, h5, h6, h7, h8⟩
 
 end KM.CookieUpGo
+
+/-! ## `VIPAuthHandler` from `checkAuth` to the response (`KM/Gen/GoVipOtp.lean`, block with a join point) -/
+namespace KM.VipOtpGo
+open KM.GoTypes KM.Go
+
+/-- the code the handler reads from the form: the single `OTP` value, or the empty string -/
+def otpString (formOTP : List (List Char) × Bool) : List Char :=
+  if formOTP.2 then formOTP.1.headD [] else []
+
+/-- **a VIP one-time code raises only the cookie of the user it was validated for** (C05), on the translated source of
+`VIPAuthHandler` (from `checkAuth` to the response): the upgrade is reached only when `checkAuth` admitted the request,
+VIP is enabled, the single `OTP` form value parsed, and the VIP service — asked about exactly the authenticated user and
+that code — answered `true` without an error; the cookie raised is that user's, by the VIP bit. -/
+theorem c05_go_vip_otp_upgrade (ext : VipOtpExt) (formOTP : List (List Char) × Bool) (vipEnabled : Bool)
+    (u : List Char) (lvl : Nat)
+    (h : VipOtpEffect.upgrade u lvl ∈ (KM.Gen.GoVipOtp.vipOtpCore ext formOTP vipEnabled).2) :
+    ∃ info otp, ext.checkAuth 65535 = (info, none) ∧ u = info.Username ∧ lvl = (info.AuthType ||| 16) ∧
+      vipEnabled = true ∧ ext.atoi (otpString formOTP) = (otp, none) ∧
+      ext.vipValidate info.Username otp = (true, none) ∧
+      VipOtpEffect.asked info.Username otp ∈ (KM.Gen.GoVipOtp.vipOtpCore ext formOTP vipEnabled).2 := by
+  obtain ⟨ca, atoi, vv, ur⟩ := ext
+  obtain ⟨vals, ok⟩ := formOTP
+  unfold KM.Gen.GoVipOtp.vipOtpCore at h ⊢
+  unfold otpString
+  dsimp only at h ⊢
+  rcases hca : ca 65535 with ⟨info, _ | e⟩
+  · rw [hca] at h
+    simp only [Option.isSome_none, Bool.false_eq_true, if_false] at h ⊢
+    refine ⟨info, (atoi (if ok = true then vals.headD [] else [])).1, rfl, ?_⟩
+    cases ok <;> cases vipEnabled <;> simp only [Bool.false_eq_true, if_false, if_true, Bool.not_true, Bool.not_false] at h ⊢ <;>
+      (repeat' split at h) <;> simp_all [Prod.ext_iff] <;> (try (rw [if_neg (by omega)])) <;> simp
+  · rw [hca] at h; simp at h
+
+end KM.VipOtpGo
